@@ -181,7 +181,7 @@ pub open spec fn dc_programmed(d: DcDev, t: u64, dl: int, p: int) -> bool {
         __it0.rest@ =~= want.skip(want.len() - __it0.rest@.len()),
         forall|i: int| 0 <= i < want.len() - __it0.rest@.len() ==> #[trigger] dc_programmed(want[i], system_time, dl0, p0),
     decreases __it0.rest@.len()
-@before "let start_time = (system_time + first_pulse_delay)"
+@before "let start_time ="
     proof {
         let x = (system_time + first_pulse_delay) as int;
         let p = sync0_period as int;
